@@ -90,6 +90,7 @@ let replay line =
   let in_further = ref false in
   let rej = ref "" in
   let timely_bad = ref (-1) in
+  let prem_bad = ref (-1) in
   let stored_always = ref true and held_always = ref true in
   let first_unstored = ref (-1) in
   let nsteps = ref 0 in
@@ -97,6 +98,7 @@ let replay line =
   let bump k = Hashtbl.replace hist k (1 + try Hashtbl.find hist k with Not_found -> 0) in
   let observe idx =
     if not !in_further && !timely_bad < 0 && not (timely (ni_ !case_kd) !s) then timely_bad := idx;
+    if not !in_further && !prem_bad < 0 && not (premise (ni_ !case_kd) !s) then prem_bad := idx;
     if not (all_stored !s) then (stored_always := false; if !first_unstored < 0 then first_unstored := idx);
     if not (held_present !s) then held_always := false in
   let apply idx kd name e =
@@ -228,9 +230,10 @@ let replay line =
     incr i
   done;
   let hs = String.concat "," (List.sort compare (Hashtbl.fold (fun k v acc -> Printf.sprintf "%s=%d" (String.map (fun c -> if c = ' ' then '_' else c) k) v :: acc) hist [])) in
-  Printf.sprintf "run=%s steps=%d kd=%d timely=%s stored_always=%b first_unstored=%d held_always=%b closed_final=%b stored_final=%b short=%b hist=%s | %s"
+  Printf.sprintf "run=%s steps=%d kd=%d timely=%s premise=%s stored_always=%b first_unstored=%d held_always=%b closed_final=%b stored_final=%b short=%b hist=%s | %s"
     (if !rej = "" then "ok" else "rejected:" ^ !rej) !nsteps !case_kd
     (if !timely_bad < 0 then "true" else Printf.sprintf "false@%d" !timely_bad)
+    (if !prem_bad < 0 then "true" else Printf.sprintf "false@%d" !prem_bad)
     !stored_always !first_unstored !held_always (all_closed !s) (all_stored !s)
     (short_backups (ni_ !case_kd) !s) hs (final_string !s pinv)
 
